@@ -24,6 +24,7 @@ LEVEL = 'proof'
 SIFT = 'emd/sift.py'
 FUNCTIONS = ['emd.sift.get_next_imf_mask', 'emd.sift.get_mask_freqs', 'emd.sift.mask_sift']
 ASSUMPTIONS = [
+    'assumed numpy contracts added for rewritten phase grids: np.deg2rad(x) = x * pi / 180, np.arange(lo, hi, step) for concrete integers (both cross-checked natively)',
     'floats are mathematical reals; cos is uninterpreted; pi is a real constant in (3.14159, 3.1416)',
     'get_next_imf is a pure function (GI, GF) of its input vector for fixed options (C04; effects recorded by the engine: no RNG, no global state)',
     'assumed stdlib contract: Pool(n).starmap(f, args) == [f(*a) for a in args] in order, whatever the job-to-worker assignment (OS scheduling lives inside this assumption)',
